@@ -122,8 +122,11 @@ TEXTS = {
                  "all 6561 response assignments of a 4-specifier base world (3 worlds in the thorough tier) plus "
                  "sampled worlds, each checked for panics, INTERNAL ERROR, pending entries, error placement/referrers, "
                  "fault locality against the fault-free build, and equality with the model. The machinery found a "
-                 "genuine pending-entry defect (self-redirect), repaired by a fix: commit. Termination is not proved "
-                 "(fuel); registry/npm/checksum faults are not yet enumerated: PARTIAL."),
+                 "genuine pending-entry defect (self-redirect) and a genuine non-termination (F-C03e), both repaired by fix: "
+                 "commits. Termination of the URL-stage build loop is now a theorem (C03_terminates: every iteration "
+                 "strictly decreases a measure, for every world and starting graph; the model's fuel is computed from it, "
+                 "so build and reload never return None); for the registry stage termination is checked per case "
+                 "(fuel never exhausted, watchdog on the real build): PARTIAL there."),
         "design_ref": "DESIGN.md section 5 C03, section 6",
         "note": "Trusted: as C01. catch_unwind around the real build; a harness panic is reported as a violation too.",
         "technique": "Coq invariant proof over the builder model + exhaustive fault enumeration on the real code",
